@@ -50,6 +50,15 @@ func cpIncr(bz []byte) (ret []byte) {
 	return []byte{0x00}
 }
 
+// cpSucc returns the smallest byte slice that sorts after bz: a copy of bz with 0x00 appended.
+// The range proofs use it as "the key right after bz". (cpIncr is not that key: cpIncr("a") = "b"
+// skips "a\x00", "aa", ..., and cpIncr of an all-0xFF key sorts *before* it.)
+func cpSucc(bz []byte) (ret []byte) {
+	ret = make([]byte, len(bz)+1)
+	copy(ret, bz)
+	return ret
+}
+
 func cp(bz []byte) (ret []byte) {
 	ret = make([]byte, len(bz))
 	copy(ret, bz)
